@@ -3,7 +3,7 @@
 cd "$(dirname "$0")" || exit 2
 rc=0
 for id in $(python3 -c "import json;print(' '.join(c['property_id'] for c in json.load(open('MANIFEST.json'))['checks']))"); do
-  ./check $id --tier quick > .work/last_$id.log 2>&1; r=$?
+  ./check $id --tier ${1:-quick} > .work/last_$id.log 2>&1; r=$?
   tail -1 .work/last_$id.log
   [ $r -ne 0 ] && { echo "  -> exit $r"; grep -E "^(VIOLATION|UNDECIDED|KNOWN)" .work/last_$id.log | head -5; rc=1; }
 done
